@@ -271,7 +271,7 @@ impl<S: Read> Master<S> {
             let sorter = Sorter::from_str(sorter)?;
             // Only the sorter that feeds the limiter can drop rows, the others must see everything.
             let max_size = if index == 0 {
-                self.cli.take.map(|take| (self.cli.skip + take) as usize)
+                self.cli.take.map(|take| self.cli.skip.saturating_add(take) as usize)
             } else {
                 None
             };
